@@ -251,7 +251,7 @@ pub fn config_strategy(p: &Profile) -> BoxedStrategy<Config> {
                 keys,
                 start_ns,
                 tick,
-                order: ((r / 1013) % 5) as u8,
+                order: ((r / 1013) % 10) as u8,
             })
         })
         .boxed()
